@@ -2,6 +2,9 @@ module verifharness
 
 go 1.15
 
-require github.com/go-gts/gts v0.0.0
+require (
+	github.com/go-gts/gts v0.0.0
+	github.com/go-pars/pars v1.1.6
+)
 
 replace github.com/go-gts/gts => /repo
